@@ -101,6 +101,17 @@ def cases(tier, seed):
                                                      Variant("W", N1, attr=Attr(["{a}", P("a", "o")]))]))
     add("escapes_both_sides_debug", st("Debug", T1, Attr(["{", P("_0", "?"), "}"])))
     add("escapes_end_only_debug_variant", en("Debug", [Variant("Other", T1), Variant("V", T1, attr=Attr([P(None), "{x}"], ["_0"]))]))
+    # a lone Display placeholder carrying only `#`: format! hands the alternate flag to the field (the probe records it; seed C02 r5_2)
+    add("alt_only_disp_fieldname", st("Display", T1, Attr([P("_0", alt=True)])))
+    add("alt_only_disp_imp_pos", st("Display", T1, Attr([P(None, alt=True)], ["_0"])))
+    add("alt_only_disp_named_variant", en("Display", [Variant("Other", []), Variant("V", N1, attr=Attr([P("a", alt=True)]))]))
+    add("alt_only_disp_debug_attr", st("Debug", T1, Attr([P("_0", alt=True)])))
+    # a named Pointer placeholder with whitespace between the type letter and `}` in a non-transparent literal: still the field itself
+    # (seed C02 r5_3: `{ptr:p }` stopped parsing, so no `ptr = *ptr`)
+    add("ptr_ws_after_type_named_t2", st("Display", T2, Attr(["[", P("_0", "p", ws=" "), "] ", P("_1")])))
+    add("ptr_ws_after_type_named_variant", en("LowerHex", [Variant("Other", [], attr=Attr(["o"])), Variant("V", N2, attr=Attr([P("b", "p", ws="  "), "/", P("a", "x", ws=" ")]))]))
+    add("ptr_ws_after_type_debug", st("Debug", T1, Attr(["p ", P("_0", "p", ws=" ")])))
+    add("ptr_real_ws_after_type_named", st("Display", [Field(ty="refu8"), Field()], Attr(["[", P("_0", "p", ws=" "), "] ", P("_1")])), unwind=20)
     # 5. whitespace before `}`
     add("ws_named_and_index", st("Display", T2, Attr([P("_0", ws=" "), " ", P(0, ws=" ")], ["_1"])))
     add("ws_typed_with_text", st("Display", T1, Attr(["x", P(None, "x", ws=" ")], ["_0"])))
